@@ -565,7 +565,7 @@ func parse_in(tokens []*Token, token_index int, not bool) (*AstList, int, error)
 			return nil, next_index, err
 		}
 		contents = append(contents, listable)
-		current_index = next_index
+		current_index = consumeIgnoreableTokens(tokens, next_index)
 		current_token = tokens[current_index]
 	}
 	inList := AstList{Contents: contents, Not: not}
@@ -758,8 +758,8 @@ func parse_variable(tokens []*Token, token_index int) (*AstVariable, int, error)
 }
 
 func parse_sub_expression(tokens []*Token, token_index int) (*AstSubExpr, int, error) {
-	current_token := tokens[token_index+1]
-	current_index := token_index + 1
+	current_index := consumeIgnoreableTokens(tokens, token_index+1)
+	current_token := tokens[current_index]
 	expr_list := []AstExpression{}
 
 	for current_token.TokenType != CLOSEPAREN && current_token.TokenType != FIND && current_token.TokenType != REPLACE && current_token.TokenType != SET && current_token.TokenType != EOF {
@@ -783,8 +783,8 @@ func parse_sub_expression(tokens []*Token, token_index int) (*AstSubExpr, int, e
 }
 
 func parse_subroutine(tokens []*Token, token_index int) (*AstSub, int, error) {
-	current_token := tokens[token_index+1]
-	current_index := token_index + 1
+	current_index := consumeIgnoreableTokens(tokens, token_index+1)
+	current_token := tokens[current_index]
 	expr_list := []AstExpression{}
 
 	for current_token.TokenType != CLOSECURLY && current_token.TokenType != FIND && current_token.TokenType != REPLACE && current_token.TokenType != SET && current_token.TokenType != EOF {
@@ -1121,7 +1121,7 @@ func getProcessExpressionTokens(tokens []*Token, index int) ([]*Token, int) {
 		if isProcessExprEnd(tokens[token_index].TokenType) || tokens[token_index].TokenType == EOF {
 			// the end of the input ends the expression too; the caller reports what is missing
 			break
-		} else if tokens[token_index].TokenType == WS {
+		} else if tokens[token_index].TokenType == WS || tokens[token_index].TokenType == COMMENT {
 			token_index += 1
 		} else {
 			exprTokens = append(exprTokens, tokens[token_index])
